@@ -21,7 +21,7 @@ ASSUMPTIONS = ["bit-identity is demanded for identical (ta, tb) floats and ident
                "bitwise between different flag combinations of the same interval"]
 REQUIRED_COUNTERS = ["repeats", "repeats_after_eviction", "repeats_after_refinement", "repeats_recomputed",
                      "adjoint_matched_queries", "repeats_with_A", "repeats_cache0", "point_repeats",
-                     "default_dtype_flipping_cases"]
+                     "default_dtype_flipping_cases", "second_backward_passes"]
 CASE_TIMEOUT = 900
 
 
@@ -199,7 +199,17 @@ def run_adjoint(case):
     y0 = torch.randn(B, d, requires_grad=True)
     ys = torchsde.sdeint_adjoint(sde, y0, ts, bm=bm, method=method, adjoint_method=adj_method, dt=dt)
     nf = len(bm.log)
+    ys.sum().backward(retain_graph=True)
+    # a second backward pass over the same graph queries the same Brownian object again (after the first pass refined
+    # and evicted at will): it must see the same noise, hence produce bit-identical gradients
+    g1 = [y0.grad.clone()] + [None if p.grad is None else p.grad.clone() for p in sde.parameters()]
+    nb1 = len(bm.log)
+    y0.grad = None
+    for p in sde.parameters():
+        p.grad = None
     ys.sum().backward()
+    g2 = [y0.grad] + [p.grad for p in sde.parameters()]
+    bm.log, bm.values = bm.log[:nb1], bm.values[:nb1]
     fwd = {}
     for q, v in zip(bm.log[:nf], bm.values[:nf]):
         fwd.setdefault(q, _as_tuple(v))
@@ -213,6 +223,10 @@ def run_adjoint(case):
                     viol.append({"mechanism": "backward_noise_differs_from_forward",
                                  "detail": f"{method}/{adj_method} interval {q[:2]} cache={cache}"})
                 break
+    cnt["second_backward_passes"] = 1
+    if any((a is None) != (b is None) or (a is not None and not torch.equal(a, b)) for a, b in zip(g1, g2)):
+        viol.append({"mechanism": "second_backward_pass_gives_other_gradients",
+                     "detail": f"{method}/{adj_method} {noise_type} cache={cache} steps={n_steps} outputs={k + 1}"})
     return {"violations": viol, "counters": cnt, "max": {},
             "nontrivial": cnt.get("adjoint_matched_queries", 0) >= 4,
             "sample": {"method": method, "adjoint_method": adj_method, "noise": noise_type, "steps": n_steps,
